@@ -420,12 +420,11 @@ pub fn parse_term(to_parse: &str) -> Result<Unifiable, String> {
         }
     }
 
-    // Check for escaped characters, eg: \,
-    let unescaped: String;
-    if chrs.contains(&'\\') {
-        unescaped = unescape(&chrs);
-        s = &unescaped;
-    }
+    // Check for stray quotes, as parse_arguments() and
+    // parse_linked_list() do, and for escaped characters, eg: \,
+    let (unescaped, num_quotes) = unescape(&chrs);
+    if let Some(err) = check_quotes(s, num_quotes) { return Err(err); }
+    s = &unescaped;
 
     return make_term(s, has_digit, has_non_digit, has_period);
 
@@ -437,28 +436,30 @@ pub fn parse_term(to_parse: &str) -> Result<Unifiable, String> {
 // Arguments:
 //   chrs - characters of the term
 // Return:
-//   term without the escaping backslashes
-fn unescape(chrs: &Vec<char>) -> String {
+//   term without the escaping backslashes,
+//   number of double quotes outside parentheses and brackets
+fn unescape(chrs: &Vec<char>) -> (String, usize) {
     let mut out = String::new();
+    let mut num_quotes = 0;
     let mut round  = 0;
     let mut square = 0;
     let mut open_quote = false;
     let mut i = 0;
     while i < chrs.len() {
         let ch = chrs[i];
-        if open_quote { if ch == '"' { open_quote = false; } }
+        if open_quote { if ch == '"' { open_quote = false; num_quotes += 1; } }
         else if ch == '[' { square += 1; }
         else if ch == ']' { square -= 1; }
         else if ch == '(' { round += 1; }
         else if ch == ')' { round -= 1; }
         else if round == 0 && square == 0 {
-            if ch == '"' { open_quote = true; }
+            if ch == '"' { open_quote = true; num_quotes += 1; }
             else if ch == '\\' && i < chrs.len() - 1 { i += 1; }
         }
         out.push(chrs[i]);
         i += 1;
     }
-    return out;
+    return (out, num_quotes);
 }  // unescape
 
 // Formats an error message for make_term().
